@@ -90,6 +90,7 @@ public:
         PP.SuppressTagKeyword = true;
         PP.Bool = true;
         PP.SuppressUnwrittenScope = true;
+        PP.PrintCanonicalTypes = true;   // same spelling of a class in every TU (not the as-written template arguments)
     }
 
     bool shouldVisitTemplateInstantiations() const { return true; }
